@@ -11,10 +11,18 @@ fi
 args=()
 for r in "$@"; do args+=(-replace "$r"); done
 "$here/build/bin/instrument" -mode sync,globals -out "$out" -gen "$here/build/gen-c18" -rt "$here/overlay/zzverifrt.go.txt" -report "$here/build/gen-c18-sites.json" "${args[@]}"
-# add the reset shim for the lazily initialised name tables
-python3 - "$out" "$here/cmd/c18/export_names.go.txt" <<'PY'
+# add the reset shim for the lazily initialised name tables; if it no longer fits the
+# package's internals use the do-nothing fallback (the check then reports shim_unavailable)
+addshim() {
+python3 - "$out" "$1" <<'PY'
 import json,sys
 o=json.load(open(sys.argv[1]))
 o["Replace"]["/repo/type1/names/zz_verif_reset.go"]=sys.argv[2]
 json.dump(o,open(sys.argv[1],"w"),indent=1)
 PY
+}
+addshim "$here/cmd/c18/export_names.go.txt"
+outabs="$(cd "$(dirname "$out")" && pwd)/$(basename "$out")"
+if ! (cd /repo && go build -overlay "$outabs" ./type1/names/ 2>/dev/null); then
+  addshim "$here/cmd/c18/export_names_fallback.go.txt"
+fi
